@@ -22,6 +22,7 @@ let table : (Stdlib.String.t * (z list -> z list)) list = [   (* Stdlib.: the ex
   ("jsonval", run_jsonval);
   ("refload", run_refload);
   ("paths", run_paths);
+  ("href", run_href);
   ("proxy", run_proxy);
   ("staticdecl", run_staticdecl);
   ("xmidoc_enc", run_xmidoc_enc);
